@@ -300,6 +300,8 @@ def showKRes : KRes → String
       ++ " pxum=" ++ (match v.pxUm with | some r => showRat r | none => "N")
       ++ " linetime=" ++ showRat v.lineTimeNs ++ " ppl=" ++ toString v.pixelsPerLine
       ++ " offset=" ++ showRat v.offset
+      -- a colour without photon data is a zero image of the same shape
+      ++ " absent=" ++ toString v.img.length ++ "x" ++ toString (numCols v.img)
 
 def kop? (s : String) : Option KOp :=
   match s.splitOn ":" with
@@ -328,6 +330,7 @@ def showSRes : SRes → String
   | .empty => "empty"
   | .view v => "view frames=" ++ "|".intercalate (v.frames.map showImg)
       ++ " ranges=" ++ showRanges v.ranges
+      ++ " absent=" ++ "|".intercalate (v.frames.map fun f => toString f.length ++ "x" ++ toString (numColsF f))
 
 
 /-- ops:
